@@ -1,23 +1,63 @@
 (** C01 — derived values always equal a from-scratch recomputation.
-    Statements only; proofs live in Reactive/Graph*Proofs.v. *)
+    Statements only; proofs live in Reactive/Graph*Proofs.v and Reactive/Effects*Proofs.v.
+
+    The model ([Reactive/Graph.v], [Effects.v]) transcribes MemoInner, the signal notification
+    path, Track::track, untrack, derived signals and effects.  [run_fixed p ops] is the state
+    after the history [ops] (set / notify / read / poll the k-th ready task / run to idle /
+    pause / resume / dispose — every schedule is some [ops]). *)
 From Coq Require Import List ZArith.
-From LV Require Import Reactive.Graph Reactive.GraphInvariant Reactive.GraphPullBase
-                       Reactive.GraphPullDefs Reactive.GraphProofs.
+From LV Require Import Reactive.Graph Reactive.Effects Reactive.GraphInvariant Reactive.GraphPullBase
+                       Reactive.GraphPullDefs Reactive.GraphProofs Reactive.EffectsProofs
+                       Reactive.EffectsRunProofs.
 Import ListNotations.
+Close Scope Z_scope.
+Open Scope nat_scope.
 
-(** CHECKPOINT FORM (state-based): the global invariant [Inv0] (DESIGN 7.C01 (a)-(f)) is
-    preserved by every write / notify and by every read from outside the graph, and after a
-    read the node is Clean with its whole tracked cone current (no mixture of old and new
-    inputs).  Still to be connected: reachability of [Inv0] from [init] through polls of
-    effects, and "value = replay of the body over the log" (see the final report). *)
+(** the global invariant (DESIGN 7.C01 clauses (a)-(f), generalised to effects, ghost causes and
+    the waker / run-queue discipline) holds in every reachable state: for all well-formed
+    programs, all histories, all schedules.  ([pure_effects]: effect bodies do not write
+    signals — the part of the quantifier still open, see F-C02-d and the final report.) *)
+Theorem C01_invariant_in_every_reachable_state :
+  forall p, wf_prog p -> pure_effects p ->
+  forall ops, wf_ops p ops -> Inv0 p (run_fixed p ops).
+Proof. exact reachable_inv. Qed.
+Print Assumptions C01_invariant_in_every_reachable_state.
 
-Theorem C01_write_preserves_invariant_partial :
+(** [read_consistent], consistency form: after any history, a read of node n leaves every signal
+    untouched, leaves n Clean with the returned value cached, and the WHOLE cone of tracked
+    inputs of n is current: every tracked entry of every last-run log in the cone shows the
+    source's present value (no mixture of old and new inputs); a signal read returns its value.
+    Partial: "the value is the body replayed over that log" is not yet stated (the body was
+    evaluated reading exactly the logged values; the replay function is the missing piece). *)
+Theorem C01_read_consistent_partial :
+  forall p, wf_prog p -> pure_effects p ->
+  forall ops n s' v,
+  wf_ops p ops -> n < length p -> effb p n = false ->
+  read_top p n (run_fixed p ops) = (s', v) ->
+  Inv0 p s' /\
+  (forall i, sval (getn s' i) = sval (getn (run_fixed p ops) i)) /\
+  (memob p n = true -> st (getn s' n) = Clean /\ cache (getn s' n) = Some v /\ ConsistentM p s' n) /\
+  (sigb p n = true -> v = sval (getn s' n)).
+Proof. exact read_consistent_cone. Qed.
+Print Assumptions C01_read_consistent_partial.
+
+(** reading again, with nothing written in between, returns the same value *)
+Theorem C01_read_idempotent :
+  forall p, wf_prog p -> pure_effects p ->
+  forall ops n s1 v1 s2 v2,
+  wf_ops p ops -> n < length p -> memob p n = true ->
+  read_top p n (run_fixed p ops) = (s1, v1) -> read_top p n s1 = (s2, v2) -> v2 = v1.
+Proof. exact read_idempotent. Qed.
+Print Assumptions C01_read_idempotent.
+
+(** state-based forms: any state satisfying the invariant (reachable or not) *)
+Theorem C01_write_preserves_invariant :
   forall p j v s, Inv0 p s -> sigb p j = true ->
   Inv0 p (notify_sig p j (updn j (fun n => set_sval n v) s)).
 Proof. exact Inv_notify. Qed.
-Print Assumptions C01_write_preserves_invariant_partial.
+Print Assumptions C01_write_preserves_invariant.
 
-Theorem C01_read_clean_partial :
+Theorem C01_read_preserves_invariant_and_cleans :
   forall p, wf_prog p -> forall n s s' v,
   Inv0 p s -> n < length p -> effb p n = false ->
   read_top p n s = (s', v) ->
@@ -25,9 +65,9 @@ Theorem C01_read_clean_partial :
   (memob p n = true -> st (getn s' n) = Clean /\ cache (getn s' n) = Some v) /\
   (sigb p n = true -> v = sval (getn s' n)).
 Proof. exact Inv_read. Qed.
-Print Assumptions C01_read_clean_partial.
+Print Assumptions C01_read_preserves_invariant_and_cleans.
 
-Theorem C01_clean_memo_consistent_partial :
+Theorem C01_clean_memo_has_consistent_cone :
   forall p s, Inv0 p s -> forall j, memob p j = true -> st (getn s j) = Clean -> ConsistentM p s j.
 Proof. exact clean_consistent. Qed.
-Print Assumptions C01_clean_memo_consistent_partial.
+Print Assumptions C01_clean_memo_has_consistent_cone.
